@@ -252,3 +252,14 @@ package routing
 //@ modifies *
 //@ at call (*AgentTable).AddRoute assert $1 != nil && $1.Metric == metric && $1.AgentID == agentID
 //@ at call (*AgentTable).AddRoute assert $1.NextHop == fromPeer && $1.OriginAgent == originAgent && $1.Sequence == sequence && $1.Path == path
+
+// ---- frame contracts used by the flooder's full-table replay (C13, C06) ----
+
+//@ func (*Manager).IncrementSequence
+//@ prop C13 C06 C14
+//@ modifies m.sequence
+//@ ensures result == m.sequence
+
+//@ func (*Manager).GetDisplayName
+//@ prop C13 C06
+//@ note no modifies clause: proved to change nothing (a map read under the read lock)
